@@ -167,3 +167,52 @@ func noteRelease(m any) {
 		}
 	}
 }
+
+// Pool replaces sync.Pool in instrumented code: a plain LIFO free list. sync.Pool's
+// behaviour depends on which P a goroutine runs on and on garbage collections, which would
+// make a run depend on more than its seed.
+type Pool struct {
+	mu    sync.Mutex
+	items []any
+	New   func() any
+}
+
+func (p *Pool) Get() any {
+	p.mu.Lock()
+	if n := len(p.items); n > 0 {
+		x := p.items[n-1]
+		p.items = p.items[:n-1]
+		p.mu.Unlock()
+		return x
+	}
+	p.mu.Unlock()
+	if p.New != nil {
+		return p.New()
+	}
+	return nil
+}
+
+func (p *Pool) Put(x any) {
+	if x == nil {
+		return
+	}
+	p.mu.Lock()
+	p.items = append(p.items, x)
+	p.mu.Unlock()
+}
+
+// Once replaces sync.Once: a second caller arriving while the first is still inside f
+// blocks on a simulator mutex (a durable block), not on a runtime semaphore.
+type Once struct {
+	m    Mutex
+	done bool
+}
+
+func (o *Once) Do(f func()) {
+	o.m.Lock()
+	defer o.m.Unlock()
+	if !o.done {
+		defer func() { o.done = true }()
+		f()
+	}
+}
